@@ -127,6 +127,11 @@ def sndPkt (st : SState) (ssrc seq : Nat) (ext : Bool) : Option SState :=
       some { st with snd := { s with media := st.snd.media } }
     else some st
 
+/-- wire forms of a `mal` packet the RTP header parser accepts (recorded like any packet) … -/
+def malAccepted : List String := ["ver0", "ver1", "ver3", "padbit", "csrcok", "twobyte"]
+/-- … and forms it rejects: the Read of a stream that negotiated the extension fails, nothing is recorded. -/
+def malRejected : List String := ["short", "csrc", "xcut", "extlen", "exttail", "extnext", "extown", "exthead"]
+
 def maskSS (l : String) : String :=
   match l.splitOn " " with
   | "fb" :: _ :: rest => " ".intercalate ("fb" :: "ss=*" :: rest)
@@ -166,6 +171,19 @@ def sndStep (st : SState) (ts : List String) : SState × List String :=
       match sndPkt st' ssrc seq (ext == 1) with
       | some s => (s, [])
       | none => (st', ["bad-op"])
+    | _, _, _ => (st', ["bad-op"])
+  | ["mal", _, _, _] =>
+    match (lookup fs "seq").bind (parseU · 65535), (lookup fs "ssrc").bind (parseU · 4294967295), lookup fs "kind" with
+    | some seq, some ssrc, some kind =>
+      if malAccepted.contains kind then
+        match sndPkt st' ssrc seq true with
+        | some s => (s, [])
+        | none => (st', ["bad-op"])
+      else if malRejected.contains kind then
+        match st.bound.find? (·.1 == ssrc) with
+        | some (_, tcc) => (st', if tcc then ["err:read"] else [])
+        | none => (st', ["bad-op"])
+      else (st', ["bad-op"])
     | _, _, _ => (st', ["bad-op"])
   | ["adv", _] =>
     match (lookup fs "us").bind (parseU · (2 ^ 40)) with
